@@ -215,25 +215,38 @@ func (c *Ctx) ruleThreeWaySelect(rr *RuleRep, rSucc *RuleRep, sites []*reqSite) 
 							good = false
 							continue
 						}
-						dst := cs.Edge.B.Succs[cs.Edge.K]
-						reach := ReachableFromBlock(s.F, dst, s.Q)
+						// whole paths through the case's edge; a result or cause that is a join (`err = …` per case, one return or
+						// one wrap call below) is what it holds on those paths
+						edge := cs.Edge
+						narrow := func(v ssa.Value, at ssa.Instruction) ssa.Value {
+							if v == nil {
+								return v
+							}
+							if phi, ok := c.Resolve(v).(*ssa.Phi); ok && phi.Parent() == s.F {
+								if vs, reached := valuesAlong(s.F, edge, at, phi, nil); reached && len(vs) == 1 {
+									return vs[0]
+								}
+							}
+							return v
+						}
+						reach := ReachableViaEdge(s.F, edge, s.Q)
 						nret := 0
 						for _, ret := range returnsOf(s.F) {
 							if !reach[ret] {
 								continue
 							}
 							nret++
-							ev := c.errResult(ret)
+							ev := narrow(c.errResult(ret), ret)
 							if ev == nil || isNilConst(c.Resolve(ev)) {
 								rr.Bad(key+"/case-returns-nil", ret.Pos(), "a path through the %s case of the wait reaches a nil-error return: the request would be reported as completed without its %s", caseName(cs == closedC), s.AckT)
 								good = false
 								continue
 							}
-							if cs == ctxC && !c.errCauseIsCtxErr(ev, s.Ctx) {
+							if cs == ctxC && !c.errCauseIsCtxErr(ev, s.Ctx, narrow) {
 								rr.Bad(key+"/ctx-cause", ret.Pos(), "the cancelled-context case does not report ctx.Err() of the call's own context as the cause")
 								good = false
 							}
-							if cs == closedC && !c.errCauseNonNil(s.F, ev, ret) {
+							if cs == closedC && !c.errCauseNonNil(s.F, ev, ret, narrow) {
 								rr.Bad(key+"/closed-cause", ret.Pos(), "the connection-closed case returns an error built from a cause that may be nil (%s): wrapping nil yields nil, so the request is reported as completed without its %s (e.g. after a graceful Disconnect)", describeVal(c.Resolve(ev)), s.AckT)
 								good = false
 							}
@@ -309,9 +322,16 @@ func (c *Ctx) instrAfterEdge(f *ssa.Function, target ssa.Instruction, e ifEdge, 
 }
 
 // errCauseIsCtxErr: ev is wrapError*(cause, ...) with cause = ctx.Err() of ctx (or is ctx.Err() itself).
-func (c *Ctx) errCauseIsCtxErr(ev ssa.Value, ctx ssa.Value) bool {
+func (c *Ctx) errCauseIsCtxErr(ev ssa.Value, ctx ssa.Value, narrow ...func(ssa.Value, ssa.Instruction) ssa.Value) bool {
 	if ev == nil {
 		return false
+	}
+	if len(narrow) > 0 {
+		if call, callee := c.asCall(ev); call != nil && callee != nil && callee.Pkg == c.Pkg && c.isWrapFn(callee) && len(call.Call.Args) > 0 {
+			if c.isCtxMethodOf(narrow[0](call.Call.Args[0], call), "Err", ctx) {
+				return true
+			}
+		}
 	}
 	if c.isCtxMethodOf(ev, "Err", ctx) {
 		return true
@@ -764,7 +784,7 @@ func (c *Ctx) ruleQoS0NoRetry(rr *RuleRep, sites []*reqSite) {
 
 // errCauseNonNil: ev is a sentinel, or wrapError*(cause, ...) whose cause is a sentinel (package-level Err* variable),
 // ctx.Err() after Done(), or a value known to be non-nil on this path.
-func (c *Ctx) errCauseNonNil(f *ssa.Function, ev ssa.Value, at ssa.Instruction) bool {
+func (c *Ctx) errCauseNonNil(f *ssa.Function, ev ssa.Value, at ssa.Instruction, narrow ...func(ssa.Value, ssa.Instruction) ssa.Value) bool {
 	nonNil := func(v ssa.Value) bool {
 		if n := c.globalLoadName(v); n != "" {
 			return true
@@ -792,7 +812,12 @@ func (c *Ctx) errCauseNonNil(f *ssa.Function, ev ssa.Value, at ssa.Instruction) 
 	}
 	call, callee := c.asCall(ev)
 	if call != nil && callee != nil && callee.Pkg == c.Pkg && c.isWrapFn(callee) && len(call.Call.Args) > 0 {
-		return nonNil(call.Call.Args[0])
+		if nonNil(call.Call.Args[0]) {
+			return true
+		}
+		if len(narrow) > 0 {
+			return nonNil(narrow[0](call.Call.Args[0], call))
+		}
 	}
 	return false
 }
